@@ -19,7 +19,7 @@ MANIFEST = {
     'note': 'Trusted: engine, vf.symcbor, portion stand-in (package absent: cannot be diff-tested), symbolic io twins, '
             'z3. Sockets, pacing and DTLS are not involved (generator and receive function are called at their boundary).',
     'ref': '5 C13'}
-BOUNDS = {'quick': dict(segments='<= 3 (more are cut)', receiver='all permutations, one duplicate, second transfer, packing'),
+BOUNDS = {'quick': dict(segments='<= 3 (more are cut)', receiver='all permutations, one duplicate, second transfer (other id | other address | other port of the same address), packing'),
           'thorough': dict(segments='<= 4', receiver='as quick')}
 ASSUMPTIONS = [
     'each segment is received at least once; datagrams are not corrupted',
